@@ -29,7 +29,11 @@ def check(prog, res, tier):
         'validate_check_digit is interpreted twice, normally and with every assert statement removed (what python -O '
         'compiles): in both, every normal return must be dominated by the outcome "recomputed digit == supplied digit". '
         'calculate_check_digit is shown to return exactly one character and to be pure; add_check_digit returns x ++ '
-        'calc(x); hence validate(add(x)) compares calc(x) with itself.  The Luhn arithmetic is not decided.')
+        'calc(x); hence validate(add(x)) compares calc(x) with itself.  The arithmetic is decided on a closed form: the digit '
+        'list is an indexed family over a symbolic length, loops and sums are summarised to  sum_{i<count} body(i),  each '
+        'summation is mapped onto the canonical digit index j by a known bijection (identity, reversal, stride-2 slices), and '
+        'the per-digit contribution is compared with the Luhn table for every parity of (j, n, number of separator '
+        'characters) and every digit value; the final mapping is compared on the 10 residues of the total.')
     vfi = prog.func('card.validate_check_digit')
     cfi = prog.func(CALC)
     afi = prog.func('card.add_check_digit')
@@ -121,6 +125,9 @@ def check(prog, res, tier):
     res.add(runs_a.judge('C15.b', 'add_check_digit returns x ++ calculate_check_digit(x), so validating it compares the digit with itself',
                          func_where(afi), 'return card_number + calculate_check_digit(card_number)', chk_add, rule='C15.b.add'))
 
+    # ---- C15.d the arithmetic: closed form of the digit fold against the Luhn table
+    res.add(luhn_arithmetic_ob(prog, res, cfi))
+
     # ---- C15.c purity
     def chk_pure(p, mode):
         fails = []
@@ -144,3 +151,25 @@ def check(prog, res, tier):
     if free and ob.verdict == PROVED:
         ob.verdict, ob.detail = UNDECIDED, f'reads module-level values {free}'
     res.add(ob)
+
+
+def luhn_arithmetic_ob(prog, res, cfi):
+    from .. import fold
+    ob = Ob('C15.d', 'the computed digit is the Luhn digit: every digit is weighted 2,1,2,... from the right, products '
+                     'are reduced to their digit sum, and the result completes the total to a multiple of 10',
+            func_where(cfi), 'sum(divmod(multiplier * digit, 10)) for digit, multiplier in zip(digits[::-1], cycle([2, 1]))',
+            rule='C15.d.fold')
+    v, info = fold.analyse_check_digit(prog, cfi)
+    ob.abstract = info.get('closed_form')
+    ob.detail = v.detail
+    if v.status == 'proved':
+        ob.verdict = PROVED
+    elif v.status == 'refuted':
+        ob.verdict = REFUTED
+        ob.witness = v.witness
+        ob.detail = (f'{v.detail}; calculate_check_digit({v.witness["card_number"]!r}) is {v.witness["computed"]} by its closed '
+                     f'form, the Luhn digit is {v.witness["luhn"]}')
+    else:
+        ob.verdict = UNDECIDED
+    res.count(evaluations=(v.facts or {}).get('cells', 0))
+    return ob
